@@ -175,7 +175,7 @@ def diff_snap(a, b):
     return None
 
 
-OPS = ("group", "points", "curve", "data", "rename", "move", "copy", "remove_ws", "remove_parent", "pg_add", "pg_remove", "reopen", "gc", "flag")
+OPS = ("group", "points", "curve", "data", "rename", "move", "copy", "remove_ws", "remove_parent", "pg_add", "pg_remove", "reopen", "gc", "flag", "copy_edit", "remove_vertex", "move_data")
 
 
 def run_ops(case):
@@ -238,6 +238,29 @@ def run_ops(case):
                 o = pick(objs(), a)
                 if o is not None:
                     o.copy(parent=pick(groups(), b) or ws.root)
+            elif op == "move_data":
+                # re-parent a data set (preferably one that belongs to a property group) to another object of the same size
+                srcs = [x for x in objs() if any(hasattr(c, "values") for c in x.children)]
+                o = pick(srcs, a)
+                dst = pick([x for x in objs() if x is not o and getattr(x, "n_vertices", None) == getattr(o, "n_vertices", -1)], b) if o is not None else None
+                if o is not None and dst is not None:
+                    members = {u for pg in (o.property_groups or []) for u in (pg.properties or [])}
+                    kids = [c for c in o.children if hasattr(c, "values")]
+                    kid = next((c for c in kids if c.uid in members), kids[0])
+                    kid.parent = dst
+            elif op == "copy_edit":
+                # the usual edit pattern on a copy: take the values, change them in place, assign them back
+                o = pick([x for x in objs() if any(hasattr(c, "values") and getattr(c, "values", None) is not None for c in x.children)], a)
+                if o is not None:
+                    c = o.copy(parent=pick(groups(), b) or ws.root)
+                    kid = [k for k in c.children if hasattr(k, "values") and k.values is not None][0]
+                    v = kid.values
+                    v[: max(1, len(v) // 2)] = -5.0 - step
+                    kid.values = v
+            elif op == "remove_vertex":
+                o = pick([x for x in objs() if getattr(x, "n_vertices", 0) and x.n_vertices > 2], a)
+                if o is not None:
+                    o.remove_vertices([b % (o.n_vertices - 1)])
             elif op in ("remove_ws", "remove_parent"):
                 cands = objs() + [g for g in groups()] + [c for o in objs() for c in o.children if hasattr(c, "values")]
                 t = pick(cands, a)
@@ -329,7 +352,7 @@ class ApiHistories(Contract):
     symbolic = False
     has_native = True
     props = ("C01", "C02", "C05", "C09")
-    bounded_scope = "seeded operation sequences of length 6-14 over {create group/points/curve/data, rename, flag, move, copy, remove through the workspace / through the parent, property-group add/remove, re-open, gc}: 40 sequences (quick) / 600 (thorough) + 10 fixed; WF(file) after every close, live tree == re-opened tree, removed entities stay gone, idle open/close leaves all node digests unchanged"
+    bounded_scope = "seeded operation sequences of length 6-14 over {create group/points/curve/data, rename, flag, move, copy, copy then edit the copy's values in place, remove a vertex, move a data set to another object, remove through the workspace / through the parent, property-group add/remove, re-open, gc}: 40 sequences (quick) / 600 (thorough) + 10 fixed; WF(file) after every close, live tree == re-opened tree, removed entities stay gone, idle open/close leaves all node digests unchanged"
     fixed = [
         [("group", 0, 0), ("points", 0, 0), ("data", 0, 0), ("data", 0, 0), ("data", 0, 0), ("data", 0, 0), ("remove_ws", 0, 0), ("reopen", 0, 0)],
         [("points", 0, 0), ("data", 0, 0), ("data", 0, 0), ("pg_add", 0, 1), ("pg_add", 0, 0), ("remove_ws", 2, 0), ("reopen", 0, 0)],
@@ -337,6 +360,10 @@ class ApiHistories(Contract):
         [("group", 0, 0), ("points", 0, 0), ("points", 0, 0), ("group", 0, 0), ("remove_ws", 2, 0), ("gc", 0, 0), ("reopen", 0, 0)],
         [("points", 0, 0), ("data", 0, 0), ("copy", 0, 0), ("rename", 0, 0), ("reopen", 0, 0), ("remove_parent", 0, 0), ("reopen", 0, 0)],
         [("points", 0, 0), ("data", 0, 0), ("flag", 0, 0), ("rename", 0, 0), ("flag", 0, 0), ("reopen", 0, 0), ("rename", 0, 0), ("reopen", 0, 0)],
+        [("curve", 0, 0), ("data", 0, 0), ("remove_vertex", 0, 1), ("reopen", 0, 0), ("remove_vertex", 0, 0), ("reopen", 0, 0)],
+        [("points", 0, 0), ("points", 0, 0), ("data", 0, 0), ("data", 0, 0), ("pg_add", 0, 0), ("move_data", 0, 0), ("reopen", 0, 0), ("move_data", 1, 0), ("reopen", 0, 0)],
+        [("points", 0, 0), ("data", 0, 0), ("copy_edit", 0, 0), ("reopen", 0, 0), ("copy_edit", 1, 0), ("reopen", 0, 0)],
+        [("group", 0, 0), ("curve", 0, 0), ("data", 0, 0), ("data", 0, 0), ("copy_edit", 0, 0), ("remove_vertex", 0, 2), ("reopen", 0, 0)],
     ]
 
     def native_cases(self, tier, rng):
